@@ -421,6 +421,67 @@ func checkC11(c *Ctx) {
 			"the receive loop can block on "+firstN(strings.Join(ops, "; "), 120)+": input that makes the awaited event never happen (e.g. a slot that is only released on the answered path) stops the registrar from reading any further datagram")
 	}
 
+	// ---- C11.8 a map of interface / pointer values answers a missing key with nil: the element is used only once the
+	// lookup is known to have found something
+	r.Rule("C11.8", "elements of interface-valued maps are invoked only under found / non-nil", 2)
+	{
+		nSites := 0
+		for _, f := range order {
+			eachInstr(f, func(in ssa.Instruction) {
+				var used ssa.Value
+				what := ""
+				if x, ok := in.(ssa.CallInstruction); ok && x.Common().IsInvoke() {
+					used, what = x.Common().Value, "method "+x.Common().Method.Name()+" invoked on"
+				}
+				if used == nil {
+					return
+				}
+				var lk *ssa.Lookup
+				switch v := used.(type) {
+				case *ssa.Lookup:
+					lk = v
+				case *ssa.Extract:
+					if l, ok := v.Tuple.(*ssa.Lookup); ok && v.Index == 0 {
+						lk = l
+					}
+				}
+				if lk == nil {
+					return
+				}
+				if _, isMap := lk.X.Type().Underlying().(*types.Map); !isMap {
+					return
+				}
+				// (pointer elements are left to the "ensure present, then use" idiom of the statistics maps, which this
+				// rule cannot tell from a missed lookup)
+				if _, isIface := used.Type().Underlying().(*types.Interface); !isIface {
+					return
+				}
+				nSites++
+				vp := pathOf(used)
+				okp := pathOf(lk) + "#1"
+				g := guardedM(f, in, func(cnd string, pol bool) bool {
+					if cnd == okp {
+						return pol
+					}
+					if cnd == "("+orderEq(vp, "nil")+")" {
+						return !pol
+					}
+					return false
+				})
+				title := fnName(f) + ": " + what + " " + firstN(vp, 60) + " only if the key was found"
+				if g {
+					r.OK("C11.8", title, in.Pos(), "dominated by the lookup's ok / a non-nil test")
+				} else {
+					r.Bad("C11.8", title, in.Pos(), fnName(f),
+						what+" the element of a map lookup that may have missed ("+firstN(vp, 60)+"): for a key the map does not hold (an unknown transport, an unknown id taken from the message) the element is nil and the handler panics", seen[f]...)
+				}
+			})
+		}
+		if nSites == 0 {
+			r.Unk("C11.8", "map element uses", token.NoPos, "", "no method call on an interface-valued map element found on the externally reachable paths")
+		}
+	}
+
 	// ---- C11.5 constant-bound slicing / indexing and allocation sizes on the same reachable set
 	r.Rule("C11.5", "constant-bound slices/indexes of dynamically sized values are dominated by a length test; allocation sizes come from in-memory lengths or are bounded", 10)
 	for _, f := range order {
